@@ -9,6 +9,7 @@ package mcp
 import (
 	"context"
 	"encoding/json"
+	"fmt"
 	"net/http"
 	"strings"
 
@@ -56,9 +57,15 @@ func (r *jsonResponder) respond(ctx context.Context, w http.ResponseWriter, req 
 		return nil
 	}
 
-	// Set status code and encode response
+	// Encode first: a result that cannot be encoded must not leave an empty 200 behind.
+	data, err := json.Marshal(resp)
+	if err != nil {
+		return fmt.Errorf("%w: %v", ErrResponseSerialization, err)
+	}
+
+	// Set status code and write response
 	w.WriteHeader(http.StatusOK)
-	if err := json.NewEncoder(w).Encode(resp); err != nil {
+	if _, err := w.Write(append(data, '\n')); err != nil {
 		return err
 	}
 
